@@ -38,11 +38,12 @@ from simkit.c03_zoo import VARIANT, ZOO  # noqa: E402
 from simkit.world import InvalidScenario, result  # noqa: E402
 
 PROPERTY = "C03"
-RUNS = {"quick": 340, "thorough": 60_000}
-WALL = {"quick": 45, "thorough": 1500}
-BATCH = {"quick": 4, "thorough": 40}
-SELFTEST_RUNS = 6
-SHRINK_BUDGET_S = {"quick": 20.0, "thorough": 60.0}
+COHORT = 8            # models judged per quick-tier scenario
+RUNS = {"quick": 40, "thorough": 60_000}
+WALL = {"quick": 60, "thorough": 1500}
+BATCH = {"quick": 8, "thorough": 40}     # few, long worker tasks: every worker pays for its own zygotes
+SELFTEST_RUNS = 3
+SHRINK_BUDGET_S = {"quick": 30.0, "thorough": 60.0}
 SHRINK_SKIP = ("params", "model")
 RULE = (
     "each case = one of 34 zoo models (sources->servers, all queue policies incl. RED/CoDel/Balking, lossy/jittered Network, "
@@ -73,10 +74,10 @@ ASSUMPTIONS = [
     "an exception escaping sim.run() from repo code is part of the behaviour being compared (same exception everywhere = "
     "deterministic), not a C03 violation by itself",
 ]
-EXPECTED_PROBES = ["fault.repeat", "fault.after_others", "fault.wall_offset", "fault.wall_fast", "fault.wall_frozen",
-                   "fault.hashseed_1", "fault.hashseed_4242", "fault.fresh_spawn", "probe.event_counter_dirty",
+EXPECTED_PROBES = ["fault.after_others", "fault.wall_offset", "fault.wall_fast", "fault.wall_frozen",
+                   "fault.hashseed_4242", "fault.fresh_spawn", "probe.event_counter_dirty",
                    "probe.module_random_drawn", "probe.numpy_random_drawn", "probe.uuid4_called_by_model",
-                   "probe.wall_clock_read_by_model", "probe.difference_confirmed_in_subprocess", "obs.random_seed_only_runs"]
+                   "probe.wall_clock_read_by_model", "obs.random_seed_only_runs"]
 # rare-branch probes of the models themselves (did the randomised / faulty path of the component actually run?)
 ZOO_PROBES = (
     "balked behaviour_decisions behaviour_influence_rounds btree_split cache_eviction cache_eviction_random_policy "
@@ -118,22 +119,22 @@ def _gen_job(rng, name=None, weighted=True):
 
 
 def gen(rng, tier):
-    """quick: a *cohort* of three different models that are all judged, two interpreters per scenario (cheap perturbations:
+    """quick: a *cohort* of COHORT different models that are all judged, two interpreters per scenario (cheap perturbations:
     re-run in the same interpreter after the other members, one fake wall clock per member (offset twice as often as
     fast/frozen), hash seed 4242 with the members in rotated order so that another member is the first thing a fresh
     interpreter runs); hash seed 1 and literal subprocesses on a small sample.
     thorough: one subject, 0-3 preceding models, every perturbation (the schedule of the original design)."""
     if tier == "quick":
-        names = rng.sample(MODELS, 3)
+        names = rng.sample(MODELS, COHORT)
         jobs = [_gen_job(rng, n) for n in names]
         sc = jobs[0]
         sc["others"] = jobs[1:]
         sc["plan"] = {
             "cohort": True,
-            "rotate": rng.choice([1, 2]),
+            "rotate": rng.randrange(1, COHORT),
             "wall": [rng.choice(["offset", "offset", "fast", "frozen"]) for _ in jobs],
             "hs": [4242],
-            "fresh": rng.random() < 0.05,
+            "fresh": rng.random() < 0.1,
             "obs_numpy": rng.random() < 0.3,
         }
         return sc
@@ -167,7 +168,7 @@ def _validate(sc):
         raise InvalidScenario("plan")
     if any(m not in WALL_MODES for m in plan.get("wall", [])) or any(h not in HASHSEEDS[1:] for h in plan.get("hs", [])):
         raise InvalidScenario("plan values")
-    if plan.get("rotate", 1) not in (0, 1, 2):
+    if not isinstance(plan.get("rotate", 1), int) or plan.get("rotate", 1) < 0:
         raise InvalidScenario("rotate")
 
 
@@ -199,19 +200,28 @@ def _kill(hs: int) -> None:
                 pass
 
 
+def _ensure_zygotes(hss) -> None:
+    """Start the missing zygotes together (interpreter start-up + library import is the expensive part), then wait for all."""
+    started = []
+    for hs in dict.fromkeys(hss):
+        p = _Z.get(hs)
+        if p is not None and p.poll() is None:
+            continue
+        _Z.pop(hs, None)
+        started.append((hs, subprocess.Popen([sys.executable, CHILD, "--zygote"], stdin=subprocess.PIPE, stdout=subprocess.PIPE,
+                                             stderr=subprocess.DEVNULL, env=_env(hs), text=True, bufsize=1)))
+    for hs, p in started:
+        _Z[hs] = p
+    for hs, p in started:
+        ready = p.stdout.readline()
+        if '"ready"' not in ready:
+            _kill(hs)
+            raise ChildError(f"zygote for PYTHONHASHSEED={hs} did not start: {ready!r}")
+
+
 def _zygote(hs: int) -> subprocess.Popen:
-    p = _Z.get(hs)
-    if p is not None and p.poll() is None:
-        return p
-    _Z.pop(hs, None)
-    p = subprocess.Popen([sys.executable, CHILD, "--zygote"], stdin=subprocess.PIPE, stdout=subprocess.PIPE,
-                         stderr=subprocess.DEVNULL, env=_env(hs), text=True, bufsize=1)
-    ready = p.stdout.readline()
-    if '"ready"' not in ready:
-        p.kill()
-        raise ChildError(f"zygote for PYTHONHASHSEED={hs} did not start: {ready!r}")
-    _Z[hs] = p
-    return p
+    _ensure_zygotes([hs])
+    return _Z[hs]
 
 
 def _decode(line: str, what: str) -> list:
@@ -358,6 +368,7 @@ def _execute(prog: list, full: bool, spawn_all: bool = False, only=None) -> list
     steps = [(i, st) for i, st in enumerate(prog) if only is None or i in only]
     handles = []
     try:
+        _ensure_zygotes([st["hs"] for _, st in steps if not (spawn_all or st["how"] == "spawn")])
         for _, step in steps:
             handles.append(_start(step["hs"], "spawn" if (spawn_all or step["how"] == "spawn") else "fork", step["jobs"], full))
         results = [_finish(h) for h in handles]
@@ -367,13 +378,47 @@ def _execute(prog: list, full: bool, spawn_all: bool = False, only=None) -> list
     out = []
     for (i, step), res in zip(steps, results):
         for kind, idx in step["marks"]:
-            if not kind.startswith("obs-") or not full:
+            name = kind[0] if isinstance(kind, tuple) else kind
+            if not name.startswith("obs-") or not full:
                 out.append((kind, step["hs"], res[idx], i))
     return out
 
 
 KIND_SIG = {"wall-offset": "wall-clock", "wall-fast": "wall-clock", "wall-frozen": "wall-clock",
             "fresh-spawn-hashseed": "hashseed"}
+
+
+def _confirm(sc, prog, fast_ref_digest, first_bad, only_first=None):
+    """A difference was seen: re-execute in literal fresh subprocesses with full logs — first only the reference step and the
+    step of the first difference (program order), then every step — and derive the signature from that.  -> (sig, msg)"""
+    model, variant = sc["model"], VARIANT[sc["model"]](sc["params"])
+
+    def judge(full_runs):
+        fref = full_runs[0][2]
+        for kind, hs, r, _ in full_runs[1:]:
+            if r["digest"] != fref["digest"]:
+                thing, why = first_difference(fref, r)
+                k = KIND_SIG.get(kind, kind)
+                return (f"C03/{model}:{variant}/{thing}/{k}",
+                        f"model {model} ({variant}) seed {sc['seed']}: run '{kind}'"
+                        + (f" (PYTHONHASHSEED={hs})" if k == "hashseed" else "") + f" differs from the reference run: {why}")
+        return None
+
+    verdict = None
+    if only_first is not None:
+        verdict = judge(_execute(prog, full=True, spawn_all=True, only={0, only_first}))
+    if verdict is None:
+        full = _execute(prog, full=True, spawn_all=True)
+        verdict = judge(full)
+        if verdict is None:
+            k, kind, hs = first_bad
+            if fast_ref_digest is not None and full[0][2]["digest"] != fast_ref_digest:
+                thing, why, k = "unstable", "the reference itself changed between the forked and the spawned interpreter", "fresh-process"
+            else:
+                thing, why = "unstable", "difference seen once, not reproduced in fresh subprocesses"
+            verdict = (f"C03/{model}:{variant}/{thing}/{k}",
+                       f"model {model} ({variant}) seed {sc['seed']}: run '{kind}' differed from the reference run; {why}")
+    return verdict
 
 
 def _run_single(sc):
@@ -406,36 +451,12 @@ def _run_single(sc):
     counters["probe.budget_hit"] = int(ref["status"] == "budget")
     counters["probe.repo_exception_in_run"] = int(ref["status"] not in ("ok", "budget"))
 
-    def judge(full_runs):
-        fref = full_runs[0][2]
-        for kind, hs, r, _ in full_runs[1:]:
-            if r["digest"] != fref["digest"]:
-                thing, why = first_difference(fref, r)
-                k = KIND_SIG.get(kind, kind)
-                return (f"C03/{model}:{variant}/{thing}/{k}",
-                        f"model {model} ({variant}) seed {sc['seed']}: run '{kind}'"
-                        + (f" (PYTHONHASHSEED={hs})" if k == "hashseed" else "") + f" differs from the reference run: {why}")
-        return None
-
     sig = msg = None
     bad = [(k, hs, i) for k, hs, r, i in runs[1:] if r["digest"] != ref["digest"]]
     if bad:
-        # confirm in literal fresh subprocesses, with full logs: first only the reference step and the step of the first
-        # difference (program order); if that does not reproduce it, every step
         counters["probe.difference_confirmed_in_subprocess"] = 1
-        verdict = judge(_execute(prog, full=True, spawn_all=True, only={0, bad[0][2]}))
-        if verdict is None:
-            full = _execute(prog, full=True, spawn_all=True)
-            verdict = judge(full)
-            if verdict is None:
-                kind, hs, _ = bad[0]
-                if full[0][2]["digest"] != ref["digest"]:
-                    thing, why, k = "unstable", "the reference itself changed between the forked and the spawned interpreter", "fresh-process"
-                else:
-                    thing, why, k = "unstable", "difference seen once, not reproduced in fresh subprocesses", KIND_SIG.get(kind, kind)
-                verdict = (f"C03/{model}:{variant}/{thing}/{k}",
-                           f"model {model} ({variant}) seed {sc['seed']}: run '{kind}' differed from the reference run; {why}")
-        sig, msg = verdict
+        kind, hs, step = bad[0]
+        sig, msg = _confirm(sc, prog, ref["digest"], (KIND_SIG.get(kind, kind), kind, hs), only_first=step)
     n_cmp = len(runs) - 1
     bucket = min(ref["n"] // 500, 9)
     return result(sig=sig, msg=msg or "", digest=ref["digest"], nontrivial=ref["n"] >= 30 and n_cmp >= 3, counters=counters,
@@ -443,20 +464,37 @@ def _run_single(sc):
                   extra={"compared": [k for k, _, _, _ in runs[1:]]})
 
 
+_KNOWN = None
+
+
+def _is_known(sig: str) -> bool:
+    """Is `sig` a recorded finding?  Only used to choose *which* of several differing cohort members is reported."""
+    global _KNOWN
+    if _KNOWN is None:
+        from simkit import runner as _runner
+
+        _KNOWN = _runner.load_known()
+    import fnmatch
+
+    return any(k.get("property") == PROPERTY and fnmatch.fnmatchcase(sig, k["signature"]) for k in _KNOWN)
+
+
 def _cohort_program(sc):
     """Members m0..mK-1 are all judged.  Interpreter A (hash seed 0): every member once (m0 is the first thing a fresh
-    interpreter does), every member a second time (each now runs after all the others), every member under its fake wall
-    clock, observation runs.  Interpreter B (other hash seed): the members in rotated order (another member is first)."""
+    interpreter does), every member a second time (each now runs after all the others, and under its fake wall clock),
+    observation runs.  Interpreter B (other hash seed): the members in rotated order (another member is first)."""
     plan = sc["plan"]
     members = [_subject(sc)] + _others(sc)
     k = len(members)
-    jobs0 = list(members) + list(members)
-    marks = [(("ref", j), j) for j in range(k)] + [(("after-others" if k > 1 else "repeat", j), k + j) for j in range(k)]
+    # second pass: every member again — now after all the others ran in this interpreter — and under its fake wall clock
+    # (one execution screens for both perturbations; the confirmation step separates them)
     wall = plan.get("wall", [])
+    jobs0 = list(members)
+    marks = [(("ref", j), j) for j in range(k)]
     for j, m in enumerate(members):
-        if j < len(wall):
-            jobs0.append({**m, "wall": wall[j]})
-            marks.append(((f"wall-{wall[j]}", j), len(jobs0) - 1))
+        w = wall[j] if j < len(wall) else None
+        jobs0.append({**m, "wall": w} if w else m)
+        marks.append(((("after-others" if k > 1 else "repeat") + (f"+wall-{w}" if w else ""), j), len(jobs0) - 1))
     if plan.get("obs_numpy"):
         for j, m in enumerate(members):
             jobs0.append({**m, "numpy_seed": False})
@@ -492,10 +530,11 @@ def _run_cohort(sc):
             counters["obs.random_seed_only_runs"] = counters.get("obs.random_seed_only_runs", 0) + 1
             counters["obs.random_seed_only_changes_run"] = counters.get("obs.random_seed_only_changes_run", 0) + int(r["digest"] != refs[j]["digest"])
             continue
-        key = {"hashseed": f"fault.hashseed_{hs}", "fresh-spawn-hashseed": "fault.fresh_spawn"}.get(kind, "fault." + kind.replace("-", "_"))
-        counters[key] = counters.get(key, 0) + 1
+        for part in kind.split("+"):
+            key = {"hashseed": f"fault.hashseed_{hs}", "fresh-spawn-hashseed": "fault.fresh_spawn"}.get(part, "fault." + part.replace("-", "_"))
+            counters[key] = counters.get(key, 0) + 1
         n_cmp += 1
-        if kind == "after-others":
+        if kind.startswith("after-others"):
             counters["probe.event_counter_dirty"] = counters.get("probe.event_counter_dirty", 0) | int(r["obs"]["event_counter_before"] > 0)
         if r["digest"] != refs[j]["digest"]:
             bad.append((j, kind, hs))
@@ -516,26 +555,37 @@ def _run_cohort(sc):
         sim_s += ref["sim_s"]
     sig = msg = None
     if bad:
-        # a member differed somewhere: judge that member alone with the single-subject program (reference = first thing in a
+        # members that differed somewhere are judged alone with the single-subject program (reference = first thing in a
         # fresh interpreter, repeat, after the other members, its wall clock, the other hash seed), every step in a literal
-        # fresh subprocess with full logs -> the signature is the one the single-subject schedule gives
+        # fresh subprocess with full logs -> the signature is the one the single-subject schedule gives.  All differing
+        # members are judged; the first signature that is not a recorded finding is reported (so that a recorded finding in
+        # one member cannot hide a new one in another member of the same cohort), else the first one.
         counters["probe.difference_confirmed_in_subprocess"] = 1
-        j, kind, hs = bad[0]
-        single = dict(members[j])
-        single["others"] = [m for i, m in enumerate(members) if i != j]
-        wall = sc["plan"].get("wall", [])
-        alt = sorted(set(sc["plan"].get("hs", [])) | ({hs} if hs in HASHSEEDS[1:] else set()))
-        single["plan"] = {"repeat": True, "after_others": bool(single["others"]), "wall": [wall[j]] if j < len(wall) else [], "hs": alt}
-        verdict = _confirm(single, _program(single), None, (KIND_SIG.get(kind, kind), kind, hs))
-        if verdict[0].split("/")[-2] == "unstable":
-            single["plan"] = {"repeat": True, "after_others": bool(single["others"]), "wall": list(WALL_MODES), "hs": list(HASHSEEDS[1:])}
-            verdict = _confirm(single, _program(single), None, (KIND_SIG.get(kind, kind), kind, hs))
-        sig, msg = verdict
+        verdicts, seen = [], set()
+        for j, kind, hs in bad:
+            if j in seen:
+                continue
+            seen.add(j)
+            single = dict(members[j])
+            single["others"] = [m for i, m in enumerate(members) if i != j]
+            wall = sc["plan"].get("wall", [])
+            alt = sorted(set(sc["plan"].get("hs", [])) | ({hs} if hs in HASHSEEDS[1:] else set()))
+            single["plan"] = {"repeat": True, "after_others": bool(single["others"]), "wall": [wall[j]] if j < len(wall) else [], "hs": alt}
+            first = kind.split("+")[-1]
+            fb = (KIND_SIG.get(first, first), kind, hs)
+            verdict = _confirm(single, _program(single), None, fb)
+            if verdict[0].split("/")[-2] == "unstable":
+                single["plan"] = {"repeat": True, "after_others": bool(single["others"]), "wall": list(WALL_MODES), "hs": list(HASHSEEDS[1:])}
+                verdict = _confirm(single, _program(single), None, fb)
+            verdicts.append((j, verdict))
+            if not _is_known(verdict[0]):
+                break
+        j, (sig, msg) = next(((j, v) for j, v in verdicts if not _is_known(v[0])), verdicts[0])
         msg = f"[cohort member {j} of {k}] " + msg
     import hashlib
 
     digest = hashlib.blake2b("|".join(r["digest"] for r in refs).encode(), digest_size=12).hexdigest()
-    return result(sig=sig, msg=msg or "", digest=digest, nontrivial=all(r["n"] >= 30 for r in refs) and n_cmp >= 3 * k,
+    return result(sig=sig, msg=msg or "", digest=digest, nontrivial=deliveries >= 300 and n_cmp >= 2 * k,
                   counters=counters, sim_s=sim_s, deliveries=deliveries, klass=f"cohort-of-{k}", state=states,
                   extra={"members": [m["model"] for m in members], "bad": [list(b) for b in bad]})
 
